@@ -111,7 +111,7 @@ def tla_set(items):
 
 
 def tla_constants(wb, pool, src, name, lists=(), settable=None, extends='Engine',
-                  extra='', recalc=False):
+                  extra='', recalc=False, setlists=()):
     """text of an MC module binding Engine's constants for this workbook"""
     n = nodes(wb)
     scale = wb.get('scale', 1)
@@ -154,6 +154,7 @@ MCDef == {(' @@ ' + chr(10) + '  ').join(defs)}
 MCInit0 == {init0}
 MCPool == {tla_set(tla_val(v, scale) for v in pool)}
 MCSettable == {tla_set(map(q, sorted(wb['inputs']) if settable is None else settable))}
+MCSetLists == {tla_set(tla_seq('<<' + q(a) + ', ' + tla_val(v, wb.get('scale', 1)) + '>>' for a, v in sl) for sl in setlists)}
 MCRecalc == {'TRUE' if recalc else 'FALSE'}
 MCLists == {tla_set(tla_seq(map(q, l)) for l in lists)}
 MCSrc == "{src}"
@@ -171,6 +172,7 @@ CONST_CFG = '''CONSTANTS
   Init0 <- MCInit0
   Pool <- MCPool
   Lists <- MCLists
+  SetLists <- MCSetLists
   Recalc <- MCRecalc
   Settable <- MCSettable
   Src <- MCSrc
